@@ -204,6 +204,9 @@ func publishSMsg(bus *eb.EventBus, store eb.EventStore, m sMsg, rnd *rand.Rand) 
 		return err
 	case "badvalue":
 		doc := fmt.Sprintf(`{"type":%q,"key":%q,"value":"not an object","headers":{"operation":"insert"}}`, m.Type, m.Key)
+		if rnd.IntN(2) == 0 { // an insert / update that carries no value at all
+			doc = fmt.Sprintf(`{"type":%q,"key":%q,"headers":{"operation":%q}}`, m.Type, m.Key, []string{"insert", "update"}[rnd.IntN(2)])
+		}
 		_, err := store.Append(context.Background(), &eb.Event{Type: "state.ChangeMessage", Data: []byte(doc), Timestamp: time.Now()})
 		return err
 	}
@@ -345,7 +348,23 @@ func stateScenario(rnd *rand.Rand, storeKind, dir string, n int) ([][]byte, erro
 }
 
 // ---- C19: round trips of rich entities and arbitrary bytes
+// Money encodes itself through methods on the pointer receiver (as many hand-written codecs do).
+type Money struct{ cents int64 }
+
+func (m *Money) MarshalJSON() ([]byte, error) {
+	return []byte(fmt.Sprintf(`"%d.%02d"`, m.cents/100, m.cents%100)), nil
+}
+func (m *Money) UnmarshalJSON(b []byte) error {
+	var u, c int64
+	if _, err := fmt.Sscanf(string(b), `"%d.%02d"`, &u, &c); err != nil {
+		return fmt.Errorf("money %s: %w", b, err)
+	}
+	m.cents = u*100 + c
+	return nil
+}
+
 type Rich struct {
+	Total  Money             `json:"total"`
 	Name   string            `json:"name"`
 	Tags   []string          `json:"tags,omitempty"`
 	Attrs  map[string]any    `json:"attrs,omitempty"`
@@ -357,7 +376,7 @@ type Rich struct {
 
 func randRich(rnd *rand.Rand, depth int) Rich {
 	strs := []string{"", "plain", "üñí", "<b>&</b>", "quote\"s", "tab\t", "日本", " "}
-	r := Rich{Name: strs[rnd.IntN(len(strs))], F: []float64{0, -0.5, 1e-9, 3.25, 1e15}[rnd.IntN(5)], Big: rnd.Int64() - rnd.Int64()}
+	r := Rich{Total: Money{int64(rnd.IntN(1000000))}, Name: strs[rnd.IntN(len(strs))], F: []float64{0, -0.5, 1e-9, 3.25, 1e15}[rnd.IntN(5)], Big: rnd.Int64() - rnd.Int64()}
 	for i := 0; i < rnd.IntN(3); i++ {
 		r.Tags = append(r.Tags, strs[rnd.IntN(len(strs))])
 	}
@@ -412,7 +431,9 @@ func roundTrips(rnd *rand.Rand, storeKind, dir string, n int) ([][]byte, error) 
 	c := state.NewTypedCollection[Rich](state.NewMemoryStore[Rich]())
 	state.RegisterCollection(m, c)
 	if err := m.Replay(context.Background(), eb.New(eb.WithStore(store)), eb.OffsetOldest); err != nil {
-		return nil, err
+		// messages built by the helper constructors from encodable entities: a replay that cannot apply them is a broken round trip
+		b, _ := json.Marshal(map[string]any{"e": "roundtrip", "ok": false, "why": "replay of helper-built messages failed: " + err.Error(), "key": ""})
+		return append(lines, b), nil
 	}
 	evs, _, _ := store.Read(context.Background(), eb.OffsetOldest, 0)
 	for i, e := range exps {
@@ -420,7 +441,7 @@ func roundTrips(rnd *rand.Rand, storeKind, dir string, n int) ([][]byte, error) 
 		why := ""
 		// compare through JSON (the entity's own encoding is the reference)
 		wb, _ := json.Marshal(e.val)
-		gb, _ := json.Marshal(got)
+		gb, _ := json.Marshal(&got)
 		if !ok {
 			why = "entity missing"
 		} else if string(wb) != string(gb) {
